@@ -304,3 +304,47 @@ func isConstSym(s *px.Sym) bool {
 	s = s.Strip(true)
 	return s != nil && s.Kind == px.KConst
 }
+
+// fieldLoadDeep: s is a load of field `name` reached from a base satisfying f,
+// possibly through embedded structs (&base.embedded.name).
+func fieldLoadDeep(s *px.Sym, name string, f func(base *px.Sym) bool) bool {
+	b, ok := fieldLoadBase(s, name)
+	return ok && (f == nil || f(b))
+}
+
+// fieldLoadBase returns the outermost base of a (possibly embedded) field load.
+func fieldLoadBase(s *px.Sym, name string) (*px.Sym, bool) {
+	s = s.Strip(false)
+	if s == nil || s.Kind != px.KLoad || s.X == nil || s.X.Kind != px.KFieldAddr {
+		return nil, false
+	}
+	a := s.X
+	if v := a.FieldVar(); v == nil || v.Name() != name {
+		return nil, false
+	}
+	b := a.X
+	for b != nil && b.Kind == px.KFieldAddr {
+		if v := b.FieldVar(); v == nil || !v.Embedded() {
+			break
+		}
+		b = b.X
+	}
+	return b, true
+}
+
+// sameElem: two index addresses denote the same element (same base, same index sym or constant).
+func sameElem(a, b *px.Sym) bool {
+	if a == b {
+		return true
+	}
+	if a == nil || b == nil || a.Kind != px.KIndexAddr || b.Kind != px.KIndexAddr {
+		return false
+	}
+	if a.X.Strip(false) != b.X.Strip(false) {
+		return false
+	}
+	if a.Y != nil || b.Y != nil {
+		return a.Y != nil && b.Y != nil && a.Y.Strip(true) == b.Y.Strip(true)
+	}
+	return a.Index == b.Index
+}
